@@ -124,6 +124,24 @@ theorem alpha_noOffsetChar (a : String) (h : IsAlpha a) : hasOffsetChar a = fals
   have : ∀ x ∈ "0123456789:,-+".toList, ck x ≠ .alpha := by decide
   exact this c (by simpa using hcon) hk
 
+theorem alpha_isLetters (a : String) (h : IsAlpha a) : isLetters a = true := by
+  unfold isLetters
+  rw [List.all_eq_true]
+  intro c hc
+  simp [h.2 c hc]
+
+/-- a token containing a digit, ':', ',', '-' or '+' is not a letter token -/
+theorem offsetChar_not_letters (t : String) (h : hasOffsetChar t = true) : isLetters t = false := by
+  unfold hasOffsetChar at h
+  unfold isLetters
+  rw [List.any_eq_true] at h
+  obtain ⟨c, hc, hcon⟩ := h
+  rw [List.all_eq_false]
+  refine ⟨c, hc, ?_⟩
+  have : ∀ x ∈ "0123456789:,-+".toList, ck x ≠ .alpha := by decide
+  have := this c (by simpa using hcon)
+  simpa using this
+
 theorem alpha_ne_semi (a : String) (h : IsAlpha a) : (a == ";") = false :=
   ne_lit a ";" .alpha h.2 ';' (by decide) (by decide)
 
